@@ -57,6 +57,12 @@ func (s *state) Persistent() types.PersistentState {
 	}
 }
 
+// isClosed returns true if this is the empty state that Close replaces the
+// real state with. It has no segments map and no tail so must not be used.
+func (s *state) isClosed() bool {
+	return s.segments == nil
+}
+
 func (s *state) getLog(index uint64) (*types.PooledBuffer, error) {
 	// Anything below the first index has been truncated. We must check this here
 	// because the tail writer only knows the MinIndex it was created with and
